@@ -104,4 +104,62 @@ theorem eigsMatrix_get (trim : Bool) (steps : Nat) (c : Col 𝕜 E) (r i : Nat)
   simp only
   rw [getD_ofFn, dif_pos hr, getD_ofFn, dif_pos hi]
 
+/-- expansion in an orthonormal family of `n = dim E` vectors -/
+theorem expand_of_card [FiniteDimensional 𝕜 E] (n : Nat) (hn0 : 0 < n)
+    (hn : Module.finrank 𝕜 E = n) (q : Nat → E)
+    (hON : ∀ a, a < n → ∀ b, b < n → ⟪q a, q b⟫_𝕜 = if a = b then 1 else 0) (x : E) :
+    x = ∑ i ∈ range n, ⟪q i, x⟫_𝕜 • q i := by
+  have h0 : x - ∑ i ∈ range n, ⟪q i, x⟫_𝕜 • q i = 0 := by
+    apply eq_zero_of_orthogonal_of_card n hn0 hn q hON
+    intro a ha
+    rw [inner_sub_right, inner_sum, sum_eq_single a]
+    · rw [inner_smul_right, hON a ha a ha, if_pos rfl, mul_one, sub_self]
+    · intro b hb hba
+      rw [inner_smul_right, hON a ha b (mem_range.mp hb), if_neg (Ne.symm hba), mul_zero]
+    · intro hna; exact absurd (mem_range.mpr ha) hna
+  exact sub_eq_zero.mp h0
+
+/-- **completeness at full dimension**: if `A Q_n = Q_n H_n` with `n = dim E` orthonormal columns,
+every eigenpair `(μ, x)` of `A` gives the eigenpair `(μ, Q_nᴴ x)` of `H_n` -/
+theorem ritz_complete [FiniteDimensional 𝕜 E] (n : Nat) (hn0 : 0 < n)
+    (hn : Module.finrank 𝕜 E = n) (q : Nat → E) (h : Nat → Nat → 𝕜)
+    (hON : ∀ a, a < n → ∀ b, b < n → ⟪q a, q b⟫_𝕜 = if a = b then 1 else 0)
+    (hrel : ∀ i, i < n → A (q i) = ∑ l ∈ range n, h l i • q l)
+    (μ : 𝕜) (x : E) (hx : x ≠ 0) (heig : A x = μ • x) :
+    (∃ a, a < n ∧ ⟪q a, x⟫_𝕜 ≠ 0) ∧
+      ∀ l, l < n → ∑ i ∈ range n, h l i * ⟪q i, x⟫_𝕜 = μ * ⟪q l, x⟫_𝕜 := by
+  have hexp := expand_of_card n hn0 hn q hON x
+  constructor
+  · by_contra hcon
+    push Not at hcon
+    apply hx
+    rw [hexp]
+    apply sum_eq_zero
+    intro i hi
+    rw [hcon i (mem_range.mp hi), zero_smul]
+  · intro l hl
+    have hAx : A x = ∑ l' ∈ range n, (∑ i ∈ range n, h l' i * ⟪q i, x⟫_𝕜) • q l' := by
+      conv_lhs => rw [hexp]
+      rw [map_sum]
+      calc ∑ i ∈ range n, A (⟪q i, x⟫_𝕜 • q i)
+          = ∑ i ∈ range n, ∑ l' ∈ range n, (h l' i * ⟪q i, x⟫_𝕜) • q l' := by
+            apply sum_congr rfl
+            intro i hi
+            rw [map_smul, hrel i (mem_range.mp hi), smul_sum]
+            apply sum_congr rfl
+            intro l' _
+            rw [smul_smul, mul_comm]
+        _ = ∑ l' ∈ range n, ∑ i ∈ range n, (h l' i * ⟪q i, x⟫_𝕜) • q l' := sum_comm
+        _ = _ := by
+            apply sum_congr rfl
+            intro l' _
+            rw [sum_smul]
+    have h1 : ⟪q l, A x⟫_𝕜 = ∑ i ∈ range n, h l i * ⟪q i, x⟫_𝕜 := by
+      rw [hAx, inner_sum, sum_eq_single l]
+      · rw [inner_smul_right, hON l hl l hl, if_pos rfl, mul_one]
+      · intro b hb hbl
+        rw [inner_smul_right, hON l hl b (mem_range.mp hb), if_neg (Ne.symm hbl), mul_zero]
+      · intro hnl; exact absurd (mem_range.mpr hl) hnl
+    rw [← h1, heig, inner_smul_right]
+
 end Arnoldi
